@@ -486,9 +486,19 @@ class Models(object):
         return a
 
     def np_ravel(self, x, order='C'):
-        if order != 'C':
-            raise AnalysisError("np.ravel(order=%r): the result depends on the memory layout of the input, which is not modelled" % (order,))
-        return self.np_asarray(x).ravel()
+        a = self.np_asarray(x)
+        if order == 'C':
+            return a.ravel()
+        if order in ('K', 'A'):
+            rank = a.mem_rank()
+            if rank is None:
+                return a.ravel()
+            items = a.items()
+            byrank = sorted(range(len(items)), key=lambda i: rank[i])
+            return Arr((a.size,), [items[i] for i in byrank], kind=a.kind)
+        if order == 'F':
+            return a.transpose().ravel().copy() if a.ndim > 1 else a.ravel()
+        raise AnalysisError('np.ravel(order=%r)' % (order,))
 
     def np_reshape(self, x, shape, *a):
         return self.np_asarray(x).reshape(shape)
